@@ -183,7 +183,8 @@ def run_case(kind, p):
                         m_ = refimpl.ref_maps(stack[fr_].astype(np.float64), pattern, peaks[pk_:pk_ + 1], pipeline_)[0]
                         rel = (a[j_] - peaks[pk_] + c_).astype(int)
                         if np.all(rel >= 0) and np.all(rel < 2 * c_):
-                            tie[j_] = m_[rel[0], rel[1]] >= m_.max() - 2e-4 * max(1.0, abs(m_.max()))
+                            # (an exactly constant map -- a window that sees nothing -- is computed without any rounding: no tie to excuse)
+                            tie[j_] = np.ptp(m_) > 0 and m_[rel[0], rel[1]] >= m_.max() - 2e-4 * max(1.0, abs(m_.max()))
                     bad = clear & np.any(a != b, axis=1) & ~tie
                     if bad.any():
                         msgs.append(f"{nm}({p['dtype']}): centres differ from float64 input: {a[bad].tolist()} vs {b[bad].tolist()}")
@@ -238,6 +239,15 @@ def search(ctx, boost=1, focus=()):
             shape = [2 * c + int(rng.integers(20, 60)), 2 * c + int(rng.integers(20, 60))]
             npk = 2 ** 19 // ((2 * c) ** 2 * 8) + int(rng.integers(2, 8))
             peaks = np.stack([rng.integers(c, shape[0] - c, npk), rng.integers(c, shape[1] - c, npk)], axis=1)
+            # a few positions whose window lies entirely outside the frame, anywhere in the list (also after the first block of
+            # float64 buffers) and next to windows that stick out partly
+            for j_ in [npk - 1, 0] + rng.choice(npk, size=min(3, npk), replace=False).tolist():
+                side = int(rng.integers(4))
+                peaks[j_] = [(-c - int(rng.integers(0, 40)), int(rng.integers(0, shape[1]))),
+                             (shape[0] + c + int(rng.integers(0, 40)), int(rng.integers(0, shape[1]))),
+                             (int(rng.integers(0, shape[0])), -c - int(rng.integers(0, 40))),
+                             (int(rng.integers(0, shape[0])), shape[1] + c + int(rng.integers(0, 40)))][side]
+            peaks[int(rng.integers(npk))] = [int(rng.integers(0, c)), int(rng.integers(shape[1] - c, shape[1]))]
             p = {"seed": int(rng.integers(1 << 30)), "dtype": name, "spread": "ramp", "pattern": pat, "shape": shape,
                  "peaks": peaks.tolist(), "upsample": [None, 5, None, 20][(rep + DTYPES.index(name)) % 4] if name != "uint16" else 5}
             ctx.oracle_case("dtype", p, run_case("dtype", p), nontrivial=True)
